@@ -380,7 +380,7 @@ func exhaustive(r *h.Run, topics []string, vals []int, names, filters []string, 
 
 func TestCheck(t *testing.T) {
 	r := h.New("C05", "exploration")
-	r.Rule("sequential: all mutation sequences of exactly length L (prefixes are checked on the way: every query after every step) over 4 topics {a, a/b, a/+, b} x 2 values with Add/Set/Remove/Empty/Clear/Reset, L=3 quick, L=4 thorough, plus L=5 over 3 topics thorough; random sequences up to length 400 over larger universes; after every step all queries (Get/Match/MatchFirst/Search/SearchFirst/All/Count) are compared with the map model, the trie shape (parsed from String()) with a fresh tree of the same contents, and every result slice returned earlier is re-compared with its copy. Concurrent: 2-16 goroutines x 3-6 ops, values unique per goroutine, recorded at the call boundary and checked by porcupine against the same map model, under the race detector. Non-trivial/distinct = sequences in which a removal deletes a topic while others survive (by sequence), concurrent histories with >=2 overlapping mutating ops (by history)")
+	r.Rule("sequential: all mutation sequences of exactly length L (prefixes are checked on the way: every query after every step) over 4 topics {a, a/b, a/+, b} x 2 values with Add/Set/Remove/Empty/Clear/Reset, L=3 quick, L=4 thorough, plus L=5 over the parent/child pair {a, a/b} thorough; random sequences up to length 400 over larger universes; after every step all queries (Get/Match/MatchFirst/Search/SearchFirst/All/Count) are compared with the map model, the trie shape (parsed from String()) with a fresh tree of the same contents, and every result slice returned earlier is re-compared with its copy. Concurrent: 2-16 goroutines x 3-6 ops, values unique per goroutine, recorded at the call boundary and checked by porcupine against the same map model, under the race detector. Non-trivial/distinct = sequences in which a removal deletes a topic while others survive (by sequence), concurrent histories with >=2 overlapping mutating ops (by history)")
 	r.Assume("result order is not compared (the property promises sets); MatchFirst/SearchFirst may return any member of the result set")
 	r.Assume("stored topics containing '+' are treated by Search as names with a literal '+' level")
 	r.Exhaustive()
@@ -392,8 +392,8 @@ func TestCheck(t *testing.T) {
 	r.Count("sequences_exhaustive_4topics", n)
 	r.EvalN(int(n))
 	if !r.Quick() {
-		n := exhaustive(r, []string{"a", "a/b", "a/#"}, []int{1, 2}, []string{"a", "a/b", "b"}, []string{"a/#", "+", "a/+"}, 5, "exhaustive-3-topics")
-		r.Count("sequences_exhaustive_3topics_len5", n)
+		n := exhaustive(r, []string{"a", "a/b"}, []int{1, 2}, []string{"a", "a/b", "b"}, []string{"a/#", "+", "a/+"}, 5, "exhaustive-2-topics")
+		r.Count("sequences_exhaustive_2topics_len5", n)
 		r.EvalN(int(n))
 	}
 	r.Sample(map[string]interface{}{"mutator_alphabet": fmt.Sprint(mutators(topics, []int{1, 2})), "queries": fmt.Sprint(queriesFor(topics, names, filters))})
